@@ -280,11 +280,11 @@ def run(ctx):
     nontrivial = set()
     nexec = 0
 
-    def go(label, execs):
+    def go(label, execs, harness=harness, max_parts=6):
         nonlocal nexec
         # long strings make the recursive textbook operators (replace, split) deep: give TLC's threads a big stack
         for lab in conform_all(ctx, label, execs, harness, "Trace_SimpleStr", tcfg, pcfg, key_of, meta={"source": label},
-                               env={"JAVA_TOOL_OPTIONS": "-Xss256m"}, max_parts=6):
+                               env={"JAVA_TOOL_OPTIONS": "-Xss256m"}, max_parts=max_parts):
             for e in log_of(ctx, lab):
                 if e.get("ev"):
                     nontrivial.add(json.dumps({k_: v_ for k_, v_ in e.items() if k_ not in ("ev",)}, sort_keys=True))
@@ -305,6 +305,15 @@ def run(ctx):
     ctx.notes["table_rows"] = len(rows)
     ctx.notes["table_rows_by_function"] = by_fn
     ctx.rng.shuffle(rows)
+    # the empty string repeated a symbolic number of times: a loop over the count never ends, so these calls run one per
+    # execution under a short deadline of their own (a hang ends the harness process and would hide the rest of a chunk)
+    rep = [r_ for r_ in rows if r_["fn"] == "repeat" and r_["hg"][0]]
+    rows = [r_ for r_ in rows if not (r_["fn"] == "repeat" and r_["hg"][0])]
+    ctx.notes["table_rows_symbolic_sizes"] = sum(1 for r_ in rows + rep if any(r_["hg"]))
+    if not rep or ctx.notes["table_rows_symbolic_sizes"] < 100:
+        raise Infra("the table contains no calls with sizes beyond every string")
+    go("table_repeat_huge", [[row_to_line(r_)] for r_ in sorted(rep, key=lambda r_: r_["hg"][0])],
+       harness=lambda s_, l_: ctx.run([exe, s_, l_], timeout=5), max_parts=2)
     execs = chunk([row_to_line(r_) for r_ in rows], 200)
     ctx.sample({"source": "TLC table (Gen_SimpleStr)", "execution": ["\t".join(map(str, l)) for l in execs[0][:8]]})
     go("table", execs)
